@@ -273,6 +273,20 @@ def report(ck, sh, mm, gname):
                 m.near_field_coord = np.array([[1.0, 1.0], [1.0, 1.0], [1.0, 2.0]])
                 m.nf_param = np.array([[1.0, 1.0, 1.0], [1.0, 1.0, 1.0], [1.0, 1.0, 2.0]])
                 m.nf_power = m.power
+                # every writer has been used once before on the same object, for another solution (other currents, other power): what
+                # is read below is the SECOND report of the object
+                cur1 = np.empty(n, dtype=object)
+                cur1[:] = [SC.var('J%d' % k) for k in range(n)]
+                m.current, keep_p = cur1, m.power
+                m.power = pos('P1', 1e-9, 1e6)
+                for wr in (m.wires_as_mininec, m.sources_as_mininec, m.loads_as_mininec, m.source_data_as_mininec, m.currents_as_mininec,
+                           m.far_field_as_mininec, m.far_field_absolute_as_mininec, m.near_field_e_as_mininec):
+                    try:
+                        wr()
+                    except ZeroDivisionError:
+                        pass
+                m.current, m.power = cur, keep_p
+                m.nf_power = m.ff_power = m.power
                 text = dict(geo=m.wires_as_mininec(), src=m.sources_as_mininec(), lds=m.loads_as_mininec(),
                             sdata=m.source_data_as_mininec(), cur=m.currents_as_mininec(), ffdb=m.far_field_as_mininec(),
                             ffabs=m.far_field_absolute_as_mininec(), nfe=m.near_field_e_as_mininec())
